@@ -1363,6 +1363,9 @@ impl Display for Variant {
         if let Some(cost) = self.cost {
             write!(f, " :cost {cost}")?;
         }
+        if self.unextractable {
+            write!(f, " :unextractable")?;
+        }
         write!(f, ")")
     }
 }
@@ -1620,6 +1623,9 @@ impl<Head: Display, Leaf: Display> GenericRewrite<Head, Leaf> {
         }
         if !ruleset.is_empty() {
             write!(f, " :ruleset {ruleset}")?;
+        }
+        if !self.name.is_empty() {
+            write!(f, " :name {}", Literal::String(self.name.clone()))?;
         }
         write!(f, ")")
     }
